@@ -54,3 +54,47 @@ func H_C10_AccessInvalidate() {
 	vrt.Assert(calls == 2, "access-callback-not-reinvoked-once")
 	vrt.Assert(vals[0] == 1 && vals[1] == 2, "access-callback-values")
 }
+
+// H_C10_AccessPrompt: as H_C10_AccessInvalidate, but the replacement value is not resolved
+// before the first invocation has seen its context cancelled: the invalidation alone (not the
+// arrival of a replacement) must cancel the callback's context, otherwise the callback, the
+// resolver and Access wait for each other for ever (stuck class).
+func H_C10_AccessPrompt() {
+	errStale := errors.New("result of the invalidated invocation")
+	var n int
+	var lastRel func()
+	cancelSeen := make(chan struct{})
+	resolver := func(ctx context.Context, released func()) (int, func(), error) {
+		var v int
+		vrt.Atomic(func() {
+			n++
+			v = n
+			lastRel = released
+		})
+		if v == 2 {
+			<-cancelSeen
+		}
+		return v, nil, nil
+	}
+	rc := refcount.NewRefCount[int](context.Background(), false, nil, nil, resolver)
+	calls := 0
+	var vals [4]int
+	err := rc.Access(context.Background(), func(ctx context.Context, val int) error {
+		calls++
+		if calls <= 4 {
+			vals[calls-1] = val
+		}
+		if calls == 1 {
+			var f func()
+			vrt.Atomic(func() { f = lastRel })
+			f()
+			<-ctx.Done() // cancelled promptly: no further event is needed
+			close(cancelSeen)
+			return errStale
+		}
+		return nil
+	})
+	vrt.Assert(err == nil, "access-returned-result-of-invalidated-invocation")
+	vrt.Assert(calls == 2, "access-callback-not-reinvoked-once")
+	vrt.Assert(vals[0] == 1 && vals[1] == 2, "access-callback-values")
+}
